@@ -19,7 +19,8 @@ func init() {
 			"R1.2 no two lexemes the printers can write next to each other fuse into a different token stream in any output mode, unless the writer's separator guard (evaluated for that pair) puts a space between them; " +
 			"R1.3 operand parenthesisation guards evaluated over all level orderings (= R3.3); " +
 			"(R1.4, literals re-lex to themselves, is decided and reported under C07 R7.1 with its known findings, not repeated here;) " +
-			"R1.5 statements the parser ends with the separator check are ended by the printer, and the writer emits ';' whenever pretty printing is off.",
+			"R1.5 statements the parser ends with the separator check are ended by the printer, and the writer emits ';' whenever pretty printing is off; " +
+			"R1.6 where a printer writes '.' directly behind a child, every path either brackets the child or has found by a type test that it is not an integer literal (`1 .toString()` must not come out as `1.toString()`: the one place where the library's own lexer and JavaScript's disagree on adjacent lexemes).",
 		notDecided: []string{"evaluation semantics under a JavaScript engine", "that the parser's tree is the JavaScript tree (C02)", "the post-pass over pretty output (C06 R6.3)", "decoded values of escapes (C07)", "anything a plugin's own node prints"},
 	})
 }
@@ -49,6 +50,10 @@ func runC01(c *Ctx) {
 	c.rule("R1.3", "operand parenthesisation guards evaluated over all level orderings; balanced; enclose the operand (= R3.3)")
 	c.floor(8)
 	ruleParenGuards(c, t)
+
+	c.rule("R1.6", "a '.' written right behind a child is never preceded by a bare integer literal: JavaScript reads `1.x` as the number \"1.\" followed by x (the library's own lexer does not, so R1.2 cannot see it)")
+	c.floor(1)
+	ruleNumberBeforeDot(c)
 
 	c.rule("R1.5", "statement termination: WriteSemi emits ';' on every path where pretty printing is off (the position of the terminator is part of R1.1)")
 	c.floor(2)
